@@ -148,7 +148,28 @@ func famIdentity(w *World, c *Case, rng *rand.Rand) {
 		}
 		w.Advance(time.Millisecond)
 	}
+	// an RPC with no request metadata at all (bare context, no credentials): its handler must see
+	// no request metadata - in particular not the tunnel-opening call's
+	before := len(w.Env.Log.Invocations)
+	bare := &RPCSpec{ID: "bare", Method: []string{"Unary", "Bidi"}[rng.Intn(2)], NoOutgoingMD: true, Client: []Op{{K: "invoke", N: 3}}}
+	if bare.Method == "Bidi" {
+		bare.Client = []Op{{K: "open"}, {K: "send", N: 3}, {K: "close"}, {K: "recvall"}}
+	}
+	w.Env.StartRPC(context.Background(), w.Ch, bare)
 	w.Advance(time.Second)
+	w.Env.Log.mu.Lock()
+	invs := append([]Invocation(nil), w.Env.Log.Invocations[before:]...)
+	w.Env.Log.mu.Unlock()
+	for _, inv := range invs {
+		if inv.RPC != "" {
+			continue
+		}
+		w.Stat("identity_bare_rpcs", 1)
+		if len(inv.MD) != 0 {
+			w.Violate("C17", "handler-request-metadata-wrong", "an RPC sent with no request metadata at all (%s, %s): its handler's metadata.FromIncomingContext returned %s", bare.Method, w.Cfg.Dir, mdString(inv.MD))
+			w.Violate("C02", "wrong-request-metadata", "an RPC sent with no request metadata at all: handler saw %s", mdString(inv.MD))
+		}
+	}
 	w.Stat("identity_runs", 1)
 	views := buildViews(w.Env)
 	for _, s := range specs {
